@@ -12,6 +12,7 @@ pub mod plain;
 pub mod plugbox;
 pub mod sched;
 pub mod props;
+pub mod relock;
 pub mod runner;
 pub mod simnode;
 pub mod towerbox;
